@@ -48,11 +48,12 @@ Section Gadgets.
   Variable one : R.
   Variable lin : op -> R -> R.
   Variable bil : op -> R -> R -> R.
+  Variable nlin : op -> list R -> R.
 
   Notation rv := (rval R).
   Notation L := (RLeaf R).
   Notation T3 := (T3 R).
-  Notation deval := (deval R r0 radd rmul rsub atom catom one lin bil).
+  Notation deval := (deval R r0 radd rmul rsub atom catom one lin bil nlin).
   Notation gsem := (gadget_sem R r0 radd rmul rsub bil).
 
   Notation shape_ok := (shape_ok R).
